@@ -506,6 +506,17 @@ func (x *Exec) sym(st *State, t types.Type, name string) Value {
 		}
 		return a
 	case *types.Pointer:
+		// a pointer input is a fresh object of the pointee type; a type that reaches itself through pointers
+		// (a ROM holding a writer that points back to the ROM) has no finite unfolding: no verdict, not a crash
+		key := types.TypeString(u.Elem(), nil)
+		if x.symOpen == nil {
+			x.symOpen = map[string]bool{}
+		}
+		if x.symOpen[key] {
+			fail("sym: input type %s reaches itself through pointers (%s): cyclic input structures are outside the modelled subset", key, name)
+		}
+		x.symOpen[key] = true
+		defer delete(x.symOpen, key)
 		o := x.newObj(u.Elem(), name)
 		o.Input = true
 		st.Heap[o.ID] = x.sym(st, u.Elem(), name)
